@@ -21,8 +21,9 @@ func init() {
 		Assumptions: []string{
 			"excluded because the encoding itself does not round-trip (the property's own proviso): ValuesLike=nil, default JSON with UnmarshalerUsesRegisteredTypes, v1.1.5binary without KeysLike, NaN, nil-vs-empty slices",
 		},
-		MinObs: map[string]int64{"reloads_checked": 2000, "reloads_height_ge2": 50, "reloads_via_json": 500},
-		Run:    runC05,
+		MinObs:  map[string]int64{"reloads_checked": 2000, "reloads_height_ge2": 50, "reloads_via_json": 500},
+		Run:     runC05,
+		EvalObs: []string{"reloads_checked"},
 	})
 }
 
